@@ -148,10 +148,45 @@ def gen_layout(rng, quarter_aligned=False):
     return {"total": t, "measures": measures, "ts": ts, "ks": ks}
 
 
-def gen_notes(rng, total, bar, prefix="n", n_max=14, rests=True):
+# How the voices of one part are numbered.  The voice column must say what the score STATES: 0 is a voice
+# (0-based numbering; what note_array_to_score creates for a 0-based voice column), so is a number after a gap
+# or a negative number; only a MISSING voice is replaced.  (weight, name, pool)
+VOICE_SCHEMES = [
+    (26, "one_based", [None, 1, 1, 2, 3, 4]),
+    (18, "zero_based", [None, 0, 0, 1, 2, 3]),           # voice 0 next to positive voices and missing ones
+    (8, "zero_based_all_stated", [0, 0, 1, 2]),          # voice 0 next to positive voices
+    (8, "all_zero", [0]),
+    (9, "zero_and_missing", [0, 0, None]),               # voice 0 next to notes without voice, nothing else
+    (10, "gaps", [None, 0, 2, 5, 9]),
+    (5, "gaps_all_stated", [0, 3, 7]),
+    (4, "negative", [None, -2, 0, 1, -3]),                 # negative numbers other than the code's marker -1
+    (4, "one_voice", [2, 2, 2, None]),
+    (8, "all_missing", [None]),
+]
+# C05-K1: the stated voice -1 (the value the implementation uses internally for "no voice")
+VOICE_SENTINEL = (100, "states_minus_one(C05-K1)", [-1, -1, 0, 2, None])
+# staff: "note.staff if note.staff else 0" -- staff 0 and no staff both read 0; gaps and single staves
+STAFF_POOLS = [[None, None, 1, 2, 0], [None, None, 1, 2, 0], [0, 1, None], [None, 2, 5], [0], [None], [1, 2, 3]]
+
+
+def pick_voice_scheme(rng, allow_sentinel=False):
+    """(name, pool).  allow_sentinel: 3 % of the parts state voice -1 somewhere (known finding C05-K1)."""
+    if allow_sentinel and rng.random() < 0.03:
+        return VOICE_SENTINEL[1], VOICE_SENTINEL[2]
+    x = rng.random() * sum(w for w, _, _ in VOICE_SCHEMES)
+    for w, name, pool in VOICE_SCHEMES:
+        x -= w
+        if x < 0:
+            return name, pool
+    return VOICE_SCHEMES[0][1], VOICE_SCHEMES[0][2]
+
+
+def gen_notes(rng, total, bar, prefix="n", n_max=14, rests=True, allow_sentinel=False):
     """Notes in division units on [0, total]; weights on the corner cases C05 names."""
     notes = []
     k = [0]
+    _, vpool = pick_voice_scheme(rng, allow_sentinel)
+    spool = rng.choice(STAFF_POOLS)
 
     def nid():
         k[0] += 1
@@ -160,13 +195,12 @@ def gen_notes(rng, total, bar, prefix="n", n_max=14, rests=True):
     def attrs():
         return {"step": rng.choice(STEPS), "alter": rng.choice([None, None, 0, 1, -1, 2, -2]),
                 "oct": rng.randint(1, 7),
-                "voice": rng.choice([None, 1, 1, 2, 3, 4]), "staff": rng.choice([None, None, 1, 2, 0])}
+                "voice": rng.choice(vpool), "staff": rng.choice(spool)}
 
     if total <= 0:
         return notes
     r = rng.random()
     n_items = 0 if r < 0.06 else rng.randint(1, n_max)
-    all_voiceless = rng.random() < 0.08
     for _ in range(n_items):
         kind = rng.random()
         s = rng.randrange(0, total)
@@ -179,7 +213,7 @@ def gen_notes(rng, total, bar, prefix="n", n_max=14, rests=True):
             notes.append(dict(id=nid(), s=s, e=e, **a))
             for _ in range(rng.randint(1, 2)):
                 b = dict(a) if rng.random() < 0.4 else attrs()
-                b["voice"] = rng.choice([None, 1, 2, 5])
+                b["voice"] = rng.choice(vpool)
                 notes.append(dict(id=nid(), s=s, e=min(total, s + rng.randint(1, max(1, bar))), **b))
         elif kind < 0.80:    # tie chain, often across several measures
             a = attrs()
@@ -192,7 +226,7 @@ def gen_notes(rng, total, bar, prefix="n", n_max=14, rests=True):
                 e = min(total, t + rng.randint(1, max(1, bar + bar // 2)))
                 n = dict(id=nid(), s=t, e=e, **a)
                 if rng.random() < 0.3:
-                    n["voice"] = rng.choice([None, 1, 2])     # voices may differ along a chain; the head counts
+                    n["voice"] = rng.choice(vpool + [None, 1])   # voices may differ along a chain; the head counts
                 notes.append(n)
                 if prev is not None:
                     prev["tie_next"] = n["id"]
@@ -203,15 +237,14 @@ def gen_notes(rng, total, bar, prefix="n", n_max=14, rests=True):
             notes.append(dict(id=nid(), s=s, e=s, grace=rng.choice(GRACE_TYPES), **a))
             if rng.random() < 0.5 and s < total:
                 notes.append(dict(id=nid(), s=s, e=min(total, s + rng.randint(1, max(1, bar))), **attrs()))
-    if all_voiceless:
-        for n in notes:
-            n["voice"] = None
     if rests:
+        # the rests are numbered like the notes (half of the parts) or on their own
+        rpool = vpool if rng.random() < 0.5 else pick_voice_scheme(rng, allow_sentinel)[1]
         for _ in range(rng.choice([0, 0, 1, 2, 4])):
             s = rng.randrange(0, total)
             e = min(total, s + rng.randint(1, max(1, bar)))
             notes.append(dict(id="r%d" % len(notes), s=s, e=e, rest=True,
-                              voice=rng.choice([None, 1, 2]), staff=rng.choice([None, 1, 2])))
+                              voice=rng.choice(rpool), staff=rng.choice(spool)))
     rng.shuffle(notes)
     return notes
 
@@ -238,6 +271,8 @@ def gen_dense_notes(rng, total, prefix="n"):
     only leave their small-array code path above 16 elements, so the (stable) second pass of the
     two-pass sort is only exercised by arrays of this size."""
     notes = []
+    _, vpool = pick_voice_scheme(rng)
+    spool = rng.choice(STAFF_POOLS)
     onsets = sorted(rng.sample(range(0, max(1, total)), min(max(1, total), rng.randint(2, 6))))
     n = rng.randint(24, 70)
     for k in range(n):
@@ -246,7 +281,7 @@ def gen_dense_notes(rng, total, prefix="n"):
         if rng.random() < 0.1:
             e = s
         a = {"step": rng.choice(STEPS), "alter": rng.choice([None, 0, 1, -1]), "oct": rng.randint(1, 7),
-             "voice": rng.choice([None, 1, 2, 3]), "staff": rng.choice([None, 1, 2])}
+             "voice": rng.choice(vpool), "staff": rng.choice(spool)}
         d = dict(id="%s%d" % (prefix, k), s=s, e=e, **a)
         if e == s:
             d["grace"] = rng.choice(GRACE_TYPES)
@@ -255,7 +290,7 @@ def gen_dense_notes(rng, total, prefix="n"):
     return notes
 
 
-def gen_part_spec(rng, pid="P1", allow_qd_change=True):
+def gen_part_spec(rng, pid="P1", allow_qd_change=True, allow_sentinel=False):
     aligned = rng.random() < 0.35
     layout = gen_layout(rng, quarter_aligned=aligned)
     divs = rng.choice([1, 2, 3, 4, 5, 6, 12] if aligned else [2, 4, 6, 8, 10, 12, 16, 24])
@@ -270,7 +305,7 @@ def gen_part_spec(rng, pid="P1", allow_qd_change=True):
     if rng.random() < 0.09 and spec["total"] > 0:
         spec["notes"] = gen_dense_notes(rng, spec["total"])
     else:
-        spec["notes"] = gen_notes(rng, spec["total"], bar)
+        spec["notes"] = gen_notes(rng, spec["total"], bar, allow_sentinel=allow_sentinel)
     return spec
 
 
@@ -454,6 +489,8 @@ def time_maps(part, times):
 def expected_rows(spec, part, opts, rests=False):
     """Expected table as a list of dicts (unordered) + the tabulated maps."""
     heads = spec_heads(spec, rests)
+    # what the score states: a voice that is not None is reported as it is -- 0 included; only a missing
+    # voice is replaced (documented: "max voice + 1"; the oracle only demands a number that is no stated voice)
     raw_voices = [(-1 if n["voice"] is None else n["voice"]) for n, _ in heads]
     mv = max(raw_voices) if raw_voices else 0
     want = set()
@@ -467,10 +504,10 @@ def expected_rows(spec, part, opts, rests=False):
     times = [n["s"] for n, _ in heads] + [n["s"] + d for n, d in heads]
     qm, bm = time_maps(part, times)
     rows = []
-    stated = frozenset(v for v in raw_voices if v != -1)
+    stated = frozenset(n["voice"] for n, _ in heads if n["voice"] is not None)
     for (n, d), rv in zip(heads, raw_voices):
         r = {"onset_div": n["s"], "duration_div": d, "pitch": midi_pitch(n),
-             "voice": (mv + 1 if rv == -1 else rv), "voice_stated": n["voice"] is not None, "id": n["id"],
+             "voice": (mv + 1 if n["voice"] is None else n["voice"]), "voice_stated": n["voice"] is not None, "id": n["id"],
              "onset_quarter": qm[n["s"]], "duration_quarter": qm[n["s"] + d] - qm[n["s"]],
              "onset_beat": bm[n["s"]], "duration_beat": bm[n["s"] + d] - bm[n["s"]],
              # bookkeeping (not columns): the voices the score states in this array, the id in the part,
@@ -530,10 +567,16 @@ def f4_close(got, exp, span=None):
     return abs(got - exp) <= (abs(exp) if span is None else span) * F4_REL + 2.0 ** -40
 
 
-def row_diff(g, e, cols, rests=False):
+K1_TEXT = "the score states -1 (the value the implementation uses internally for 'no voice')"
+
+
+def row_diff(g, e, cols, rests=False, defer_k1=False):
     """First column in which the observed row g differs from what the score states (e); None if none.
+    * a STATED voice (0, a number after a gap, a negative number) must be the voice column;
     * a note WITHOUT voice: the score states nothing; the number chosen must not be one of the voices the
       score states in that array (it is not compared with the implementation's max+1 formula);
+    * defer_k1: the stated voice -1 (known finding C05-K1) is not compared here -- compare_table reports it
+      only when nothing else is wrong with the table, so that it cannot hide another discrepancy;
     * the dummy spelling letter of a rest is not compared (alter and octave are the documented zeros)."""
     for c in cols:
         if c == "id":
@@ -546,6 +589,13 @@ def row_diff(g, e, cols, rests=False):
             if g[c] in e["_stated"]:
                 return ("row %r: voice = %r for a note without voice, which is a voice the score states for other notes "
                         "of the array (%s)" % (g["id"], g[c], sorted(e["_stated"])))
+        elif c == "voice" and e[c] == -1:
+            if defer_k1:
+                if g[c] != -1 and g[c] in e["_stated"]:
+                    return ("row %r: voice = %r, the score states -1 and %r for other notes of the array"
+                            % (g["id"], g[c], g[c]))
+            elif g[c] != -1:
+                return "row %r: voice = %r, %s" % (g["id"], g[c], K1_TEXT)
         elif c == "step" and rests:
             continue
         elif g[c] != e[c]:
@@ -592,13 +642,17 @@ def compare_table(got_rows, exp_rows, names, rests=False, optional=(), final_ids
                     "in the score)" % g["id"]), None
         first = None
         for k, e in enumerate(cands):
-            m = row_diff(g, e, exp_cols, rests)
+            m = row_diff(g, e, exp_cols, rests, defer_k1=True)
             if m is None:
                 matched.append(cands.pop(k))
                 break
             first = first or m
         else:
             return first, None
+    # everything else agrees: now the stated voice -1 (C05-K1)
+    for g, e in zip(got_rows, matched):
+        if "voice" in exp_cols and e["voice_stated"] and e["voice"] == -1 and g["voice"] != -1:
+            return "row %r: voice = %r, %s" % (g["id"], g["voice"], K1_TEXT), None
     return None, matched
 
 
@@ -640,6 +694,10 @@ def check_part(spec, opts, rests=False, part=None):
         r["_exp"] = e
         r["_names"] = res.dtype.names
     return "ok", "", rows, maps
+
+
+def same_failure(res, cls):
+    return res[0] == "FAIL" and failure_class(res[1]) == cls
 
 
 def shrink_spec(spec, still_fails):
@@ -785,7 +843,7 @@ def stage_parts(ctx, n_parts, n_random_opts, full_every, mp_ok, coq_per_part):
     tc_terms, tc_cases = [], []
     seen_combos = set()
     for pi in range(n_parts):
-        spec = gen_part_spec(rng, pid="P%d" % pi)
+        spec = gen_part_spec(rng, pid="P%d" % pi, allow_sentinel=True)
         full = full_every and (pi % full_every == 0)
         osets = option_sets(rng, OPT_NAMES, n_random_opts, full=full, mp_ok=mp_ok)
         feats = part_features(spec)
@@ -799,7 +857,8 @@ def stage_parts(ctx, n_parts, n_random_opts, full_every, mp_ok, coq_per_part):
             ctx.count("note_array:" + status)
             seen_combos.add(tuple(opts[k] for k in OPT_NAMES))
             if status == "FAIL":
-                small = shrink_spec(spec, lambda s: check_part(s, opts)[0] == "FAIL")
+                cls = failure_class(msg)      # the shrunk part fails in the same way (a known finding must not stand in for another failure)
+                small = shrink_spec(spec, lambda s: same_failure(check_part(s, opts), cls))
                 m2 = check_part(small, opts)[1]
                 ctx.violation("Part.note_array(%s): %s" % (fmt_opts(opts), m2 or msg),
                               {"kind": "part", "spec": small, "opts": opts, "rests": False, "message": m2 or msg})
@@ -826,7 +885,8 @@ def stage_parts(ctx, n_parts, n_random_opts, full_every, mp_ok, coq_per_part):
             ctx.evaluations += 1
             ctx.count("rest_array:" + status)
             if status == "FAIL":
-                small = shrink_spec(spec, lambda s: check_part(s, opts, rests=True)[0] == "FAIL")
+                cls = failure_class(msg)
+                small = shrink_spec(spec, lambda s: same_failure(check_part(s, opts, rests=True), cls))
                 m2 = check_part(small, opts, rests=True)[1]
                 ctx.violation("Part.rest_array(%s): %s" % (fmt_opts(opts), m2 or msg),
                               {"kind": "part", "spec": small, "opts": opts, "rests": True, "message": m2 or msg})
@@ -910,6 +970,25 @@ def part_features(spec):
         f.append("grace")
     if any(n["voice"] is None for n in ns if not n.get("rest")):
         f.append("missing_voice")
+    for what, sel in (("note", [n for n in ns if not n.get("rest")]), ("rest", [n for n in ns if n.get("rest")])):
+        vs = [n["voice"] for n in sel]
+        st = sorted({v for v in vs if v is not None})
+        if 0 in st:
+            f.append("%s_in_voice_0" % what)
+            if None in vs:
+                f.append("%s_in_voice_0_next_to_missing_voice" % what)
+            if any(v > 0 for v in st):
+                f.append("%s_in_voice_0_next_to_positive_voice" % what)
+            if st == [0] and None not in vs:
+                f.append("%ss_all_in_voice_0" % what)
+        if any(b - a > 1 for a, b in zip(st, st[1:])):
+            f.append("%s_voices_with_gap" % what)
+        if any(v < 0 for v in st):
+            f.append("%s_in_negative_voice" % what)
+        if -1 in st:
+            f.append("%s_states_voice_-1(C05-K1)" % what)
+    if any(n["staff"] == 0 for n in ns):
+        f.append("staff_0")
     if any(n["staff"] is None for n in ns if not n.get("rest")):
         f.append("missing_staff")
     if len(spec["qd"]) > 1:
@@ -942,7 +1021,7 @@ def run_coq(ctx, name, terms, cases, checker, what):
         ctx.obligation("correspondence: %s on 0 cases" % what, False, "no case generated")
         return
     try:
-        failing = ctx.coq_failing(name, "From PV Require Import Lib.Base Model.C05 Model.C05_Ext Model.C05_Inv Model.C05_Disp.\nFrom Coq Require Import QArith.", "", terms, checker, shard=40)
+        failing = ctx.coq_failing(name, "From PV Require Import Lib.Base Model.C05 Model.C05_Ext Model.C05_Inv Model.C05_Disp Model.C05_Voice.\nFrom Coq Require Import QArith.", "", terms, checker, shard=40)
     except RuntimeError as e:
         ctx.obligation("correspondence: %s" % what, False, str(e)[-1500:])
         ctx.violation("correspondence machinery failed for %s: %s" % (name, str(e)[-800:]), {"stage": name}, no_input=True)
@@ -1351,7 +1430,7 @@ def gen_inverse_case(rng):
             du = rng.randint(1, 3 * divs)
             rows.append([Fraction(on, divs), Fraction(du, divs), rng.randint(36, 90)])
     with_voice = rng.random() < 0.6
-    voices = [rng.randint(1, 3) for _ in rows] if with_voice else None
+    voices = gen_array_voices(rng, len(rows)) if with_voice else None
     if with_voice and rng.random() < 0.3:
         # a zero-duration (grace) row: at the onset and in the voice of a main note -- sanitize_part
         # deliberately removes grace notes without a main note; arrays without 'voice' carry none (C17)
@@ -1423,7 +1502,52 @@ def check_inverse(case):
         D = int(out[0]["divs_pq"])
         if not f4_close(dq, du / D, span=abs(oq) + abs(oq + du / D)) or abs((oq - shift) - on / D) > 1e-4:
             return "quarter columns of the rebuilt score do not match its division columns (onset %d)" % on, None
+    vmsg = check_rebuilt_voices(sc)[0]
+    if vmsg:
+        return vmsg, None
     return None, (sc, out)
+
+
+def check_rebuilt_voices(sc):
+    """The Score that note_array_to_score returns is a score like any other: the voice column of the note array
+    of each of its parts must be the voice the part states for the note (0 for a 0-based voice column).
+    Returns (None | message, per part {id: [stated voice]})."""
+    stated_all = []
+    for pi, part in enumerate(sc.parts):
+        try:
+            na = part.note_array()
+        except Exception as e:
+            return "note_array of the rebuilt part raised %s: %s" % (type(e).__name__, e), None
+        heads = {}
+        for n in part.notes_tied:
+            heads.setdefault(str(n.id), []).append(None if n.voice is None else int(n.voice))
+        stated = {v for vs in heads.values() for v in vs if v is not None}
+        stated_all.append({k: list(v) for k, v in heads.items()})
+        for r in na:
+            vs = heads.get(str(r["id"]))
+            if not vs:
+                return "row %r of the rebuilt part's note array belongs to none of its notes" % str(r["id"]), None
+            g = int(r["voice"])
+            if g in vs:
+                vs.remove(g)
+            elif None in vs and g not in stated:
+                vs.remove(None)
+            else:
+                return ("the part built by note_array_to_score states voice %s for note %r (voices of the part: %s), the voice "
+                        "column of its note array says %d" % ("/".join(str(v) for v in vs), str(r["id"]), sorted(stated), g)), None
+    return None, stated_all
+
+
+def gen_array_voices(rng, n):
+    """The voice column of an array handed to note_array_to_score: 1-based, 0-based, all zero, with gaps."""
+    r = rng.random()
+    if r < 0.35:
+        return [rng.randint(1, 3) for _ in range(n)]
+    if r < 0.75:
+        return [rng.randint(0, 2) for _ in range(n)]
+    if r < 0.85:
+        return [0] * n
+    return [rng.choice([0, 2, 5]) for _ in range(n)]
 
 
 def gen_inverse_list(rng):
@@ -1466,7 +1590,7 @@ def check_inverse_list(cases):
         i = next(i for i in range(len(exp)) if got[i] != exp[i])
         return ("after note_array_to_score (list of %d arrays) + note_array the %d-th row (onset, pitch, duration in quarters) is %s, "
                 "the input arrays have %s" % (len(cases), i, tuple(str(x) for x in got[i]), tuple(str(x) for x in exp[i])))
-    return None
+    return check_rebuilt_voices(sc)[0]
 
 
 def stage_inverse(ctx, n_cases, n_metrical):
@@ -1542,7 +1666,7 @@ def stage_inverse(ctx, n_cases, n_metrical):
             "model of note_array_to_score (lexsort, inferred divisions, pickup measure, time signatures from the columns, one "
             "note per row cut into tied pieces where the rebuilt part has them) composed with the model note_array = divisions, "
             "first measure, time signatures and notes of the rebuilt part and the rows (division columns; beat columns on "
-            "metrical arrays) of its note array")
+            "metrical arrays; the voice column against the voices the rebuilt part states) of its note array")
     run_coq(ctx, "inverse", terms, cases,
             "fun c => match c with (ons, dus, impl) => inverse_case_ok_m ons dus impl end",
             "create_divs_from_beats returns a positive multiple of the model's lcm of the onset and duration denominators and the "
@@ -1668,7 +1792,7 @@ def gen_metrical_case(rng):
     rows.sort()
     case = {"kind": kind, "divs": divs, "P": P, "measures": measures, "rows": rows, "tsmode": tsmode,
             "f8": rng.random() < 0.25, "give_divs": rng.random() < 0.3,
-            "voice": [rng.randint(1, 3) for _ in rows] if rng.random() < 0.6 else None}
+            "voice": gen_array_voices(rng, len(rows)) if rng.random() < 0.6 else None}
     if not met_first_row_uniform(case):
         case["give_divs"] = True              # documented limit of the inference ("possible error against div/beat")
     if rng.random() < 0.3:
@@ -1804,6 +1928,9 @@ def check_metrical(c):
                     "(beat 0 at division %d; first measures of the rebuilt score %s%s)"
                     % (eb[0], eb[1], gb[3], gb[4], eb[3], eb[4], c["P"], ms,
                        "; no time signature: compared up to the constant %s" % off if c["tsmode"] == "none" else "")), None
+    vmsg = check_rebuilt_voices(sc)[0]
+    if vmsg:
+        return vmsg, None
     return None, (sc, out)
 
 
@@ -1878,16 +2005,21 @@ def c_rebuild_case(in_rows, given, has_meas, bt, cmp_ts, cmp_beats, sc, out):
     first_meas = ob["measures"][0] if ob["measures"] else None
     obs_rows = clist([ctuple([cz(int(r["onset_div"])), cz(int(r["duration_div"])), cz(int(r["pitch"])),
                               ctuple([core.cfloat_q(float(r["onset_beat"])), core.cfloat_q(float(r["duration_beat"]))])]) for r in out])
-    return "((%s : list irow), %s, %s, %s, %s, %s, %s, %s, (%s : list (Z * (Z * Z))), (%s : list (list Z)), (%s : list (Z * Z * Z * (Q * Q))))" % (
+    # the voice column of the rebuilt score's note array; a voice the rebuilt part states for none of its notes is
+    # shown as -1 (the model's norm_voice does the same; check_rebuilt_voices has compared note by note)
+    stated = {h["voice"] for h in ob["heads"] if h["voice"] is not None}
+    vobs = clist([clist([cz(int(r["onset_div"])), cz(int(r["duration_div"])), cz(int(r["pitch"])),
+                         cz(int(r["voice"]) if int(r["voice"]) in stated else -1)]) for r in out])
+    return "((%s : list irow), %s, %s, %s, %s, %s, %s, %s, (%s : list (Z * (Z * Z))), (%s : list (list Z)), (%s : list (Z * Z * Z * (Q * Q))), (%s : list (list Z)))" % (
         clist(irows), copt(given, cz), cbool(has_meas), cz(bt), cbool(cmp_ts), cbool(cmp_beats), cz(ob["divs"]),
         copt(first_meas, lambda v: ctuple([cz(v[0]), cz(v[1])])),
         clist([ctuple([cz(int(r["onset_div"])), ctuple([cz(int(r["ts_beats"])), cz(int(r["ts_beat_type"]))])]) for r in out]
               if "ts_beats" in out.dtype.names else []),
-        clist([clist([cz(x) for x in sg]) for sg in ob["sigs"]]), obs_rows)
+        clist([clist([cz(x) for x in sg]) for sg in ob["sigs"]]), obs_rows, vobs)
 
 
-REBUILD_CHECKER = ("fun c => match c with (l, given, has_meas, bt, cmp_ts, cmp_beats, d, fm, ts, notes, rows) => "
-                   "rebuild_case_ok l given has_meas bt cmp_ts cmp_beats d fm ts notes rows end")
+REBUILD_CHECKER = ("fun c => match c with (l, given, has_meas, bt, cmp_ts, cmp_beats, d, fm, ts, notes, rows, vrows) => "
+                   "rebuild_case_ok l given has_meas bt cmp_ts cmp_beats d fm ts notes rows && rebuild_voice_ok l vrows end")
 
 
 def metrical_rebuild_term(c, sc, out):
@@ -2006,8 +2138,31 @@ def corpus_cases():
           "notes": [n("n0", 0, 2), n("n1", 2, 4, step="E")]}
     p3 = {"id": "C", "qd": [[0, 3]], "ts": [[0, 4, 4]], "ks": [], "measures": [[0, 12], [12, 24]], "total": 24,
           "notes": [n("n0", 3, 6), n("n1", 1, 2, step="G", alter=1)]}
-    return {"parts": [p1, p2, p3, pe], "scores": [[pe, p2, p3], [p2, pe, p3], [p2, p3, pe], [p2, p3], [p3]],
-            "inverse": [{"kind": "beat", "divs": None, "rows": [["0", "1/2", 60], ["1/3", "1/2", 62], ["1", "1/2", 64]], "voice": None,
+    # the voice column states what the score states: 0-based numbering, voice 0 next to notes without voice, all in
+    # voice 0, gaps and a negative number; rests in voice 0 / without voice; staff 0 and no staff both read 0
+    q = lambda i, k, v, **kw: dict(dict(id=i, s=4 * k, e=4 * k + 4, step=STEPS[k % 7], alter=None, oct=4, voice=v, staff=1), **kw)
+    pv0 = dict(base, id="V0", notes=[q("n0", 0, 0), q("n1", 1, 1), q("n2", 2, 2), q("n3", 3, 0, staff=0),
+                                     dict(id="r0", s=16, e=20, rest=True, voice=0, staff=0), dict(id="r1", s=20, e=24, rest=True, voice=1, staff=None)])
+    pv1 = dict(base, id="V1", notes=[q("n0", 0, 0), q("n1", 1, None), q("n2", 2, 0, staff=None),
+                                     dict(id="r0", s=12, e=16, rest=True, voice=0, staff=2), dict(id="r1", s=16, e=20, rest=True, voice=None, staff=2)])
+    pv2 = dict(base, id="V2", notes=[q("n0", 0, 0), q("n1", 1, 0), q("n2", 1, 0, step="G"),
+                                     dict(id="r0", s=12, e=16, rest=True, voice=0, staff=1)])
+    pv3 = dict(base, id="V3", notes=[q("n0", 0, 0), q("n1", 1, 5), q("n2", 2, -3), q("n3", 3, None), q("g", 3, 7, e=12, grace="grace"),
+                                     q("n4", 4, 0, tie_next="n5"), q("n5", 5, 2)])
+    pv4 = {"id": "V4", "qd": [[0, 6]], "ts": [[0, 4, 4]], "ks": [], "measures": [[0, 24], [24, 48]], "total": 48,
+           "notes": [dict(id="n0", s=0, e=6, step="C", alter=None, oct=4, voice=1, staff=1), dict(id="n1", s=6, e=12, step="D", alter=None, oct=4, voice=0, staff=0),
+                     dict(id="n2", s=12, e=18, step="E", alter=None, oct=4, voice=2, staff=None)]}
+    # C05-K1: the stated voice -1
+    pk1 = dict(base, id="K1", notes=[q("n0", 0, -1), q("n1", 1, 2), q("n2", 2, 0)])
+    return {"parts": [p1, p2, p3, pe, pv0, pv1, pv2, pv3, pv4, pk1],
+            "scores": [[pe, p2, p3], [p2, pe, p3], [p2, p3, pe], [p2, p3], [p3], [pv0, pv4], [pv1, pe, pv4, pv3]],
+            "inverse": [{"kind": "div", "divs": 4, "rows": [["0", "1", 60], ["0", "1", 72], ["1", "1", 62], ["1", "1", 74]], "voice": [0, 1, 0, 1],
+                         "estimate_time": True, "f8": False, "with_id": False},
+                        {"kind": "beat", "divs": None, "rows": [["0", "1", 60], ["1", "1/2", 62], ["3/2", "1/2", 64]], "voice": [0, 0, 0],
+                         "estimate_time": False, "f8": False, "with_id": True},
+                        {"kind": "both", "divs": 2, "rows": [["0", "2", 60], ["1/2", "1", 67], ["2", "1", 62]], "voice": [0, 5, 2],
+                         "estimate_time": False, "f8": False, "with_id": False},
+                        {"kind": "beat", "divs": None, "rows": [["0", "1/2", 60], ["1/3", "1/2", 62], ["1", "1/2", 64]], "voice": None,
                          "estimate_time": False, "f8": False, "with_id": False},
                         {"kind": "beat", "divs": None, "rows": [["0", "1", 60], ["5/16", "1", 62], ["7/12", "2", 64]], "voice": [1, 1, 2],
                          "estimate_time": False, "f8": True, "with_id": True}]}
@@ -2055,14 +2210,18 @@ def stage_corpus(ctx, mp_ok):
 def run(ctx):
     ctx.rule = ("Parts and scores are built through the public API from generated specifications (layout of measures, time/key "
                 "signatures, pickups 40 %, division changes 20 %, tie chains 25 % of the items (segments up to 1.5 bars: ties over "
-                "barlines), grace notes 20 %, voice missing 1/6 (+8 % parts without any voice), staff missing 2/5, equal (onset, pitch) "
+                "barlines), grace notes 20 %, voices numbered per part by one of the schemes of VOICE_SCHEMES (1-based 26 %, 0-based "
+                "with / without missing voices 26 %, all in voice 0 8 %, voice 0 next to missing voices only 9 %, gaps 15 %, negative numbers "
+                "4 %, no voice at all 8 %; the rests numbered like the notes or on their own; 3 % of the parts of the part stream state "
+                "voice -1: known finding C05-K1), staves from STAFF_POOLS (staff 0, no staff, gaps), equal (onset, pitch) "
                 "duplicates 15 %, 9 % dense parts (24-70 notes on 2-6 onsets: above numpy's small-array sort path), 6 % parts without "
                 "notes; scores: 2-4 parts whose divisions have an lcm above all of them (4,6 / 4,6,10 / 6,10,15 ...), 50 % with a part "
                 "without notes at a random position, 8 % one part, 6 % 11-14 parts (two-digit part numbers), 10 % with a dense part, "
                 "55 % handed over as nested PartGroups (groups of one part, groups in groups)).  One evaluation = one call of an "
                 "entry point (part x option set, list of parts x option set x unique_id_per_part x entry point x arrangement, one "
                 "reading of a history, one inverse round trip).  Inverse direction: arrays with beat (50 %), division (25 %) or both kinds "
-                "of columns, denominators up to 16, zero-duration rows, lists of 2-3 arrays; METRICAL arrays (as taken from a score): beat "
+                "of columns, denominators up to 16, zero-duration rows, lists of 2-3 arrays, voice column (60 %) 1-based 35 % / 0-based 40 % / "
+                "all zero 10 % / with gaps 15 %; METRICAL arrays (as taken from a score): beat "
                 "and division columns (2/3) or beat columns alone, beat 0 at division P (pickup 70 %, half of them beginning with a rest), "
                 "time signature from ts columns (40 %, half of them changing numerator and/or beat type, also returning), time_sigs, "
                 "estimate_time or none (20 % each), divisions 1..480, f4/f8, divs given 30 %, rows unsorted 30 %.  Histories: a part is "
@@ -2079,6 +2238,9 @@ def run(ctx):
                        "numpy dtype truncation (U256, i4 overflow) out of scope",
                        "cyclic tie chains excluded (Python recursion would not terminate)",
                        "parts of one generated score share the metrical layout, so beat order = division order",
+                       "a voice the score states (0, after a gap, negative) must be the voice column; staff 0 and no staff both read 0 "
+                       "(documented: note.staff if note.staff else 0); the voice of the round trip array -> score -> array is not "
+                       "compared with the INPUT array (the property names onsets, durations, pitches) but with the voices the rebuilt score states",
                        "the voice of a note WITHOUT voice, the id-prefix FORMAT, the dummy spelling letter of rests, the presence of "
                        "divs_pq in a score array when it was not asked for and the exact number of divisions create_divs_from_beats "
                        "picks are not named by the property: only 'not a stated voice', 'one prefix per part, prefix-free across "
@@ -2089,7 +2251,10 @@ def run(ctx):
                        "note within one beat type unless divs is given (documented limit of the inference); beat columns of the round trip are "
                        "demanded exactly (2^-18) only when the time signature is known, else up to one constant",
                        "the float arithmetic of the inferred divisions / pickup length is modelled on the exact rational values of the floats"]
-    ok, why = ctx.coq_props(expect_min=39)
+    # C05-K1 (findings.d/C05.json): exactly the failure "a note / rest of the part states voice -1 and the voice column
+    # says something else", everything else in the table being right
+    ctx.matchers["C05-K1"] = is_k1
+    ok, why = ctx.coq_props(expect_min=45)
     if not ok:
         ctx.log("coq_props failed: " + why[:2000])
     mp_ok = probe_metrical_position()
@@ -2109,6 +2274,20 @@ def run(ctx):
     stage_inverse(ctx, n_cases=(160 if quick else 2500), n_metrical=(220 if quick else 2500))
     if not ok and len(ctx.violations) == nv0:
         ctx.violation("proof obligations of Props/C05.v no longer check: " + why, {"theorem_or_build": why}, no_input=True)
+
+
+def is_k1(replay_obj):
+    """Known finding C05-K1: a part-level table whose only discrepancy is that a note / rest STATING voice -1 is reported
+    in another voice (the implementation marks 'no voice' with -1 inside the voice column)."""
+    import re
+    r = replay_obj
+    if r.get("kind") != "part":
+        return False
+    m = re.match(r"^row '([^']*)': voice = (-?\d+), " + re.escape(K1_TEXT) + "$", r.get("message") or "")
+    if not m or int(m.group(2)) == -1:
+        return False
+    want_rest = bool(r.get("rests"))
+    return any(n["id"] == m.group(1) and n["voice"] == -1 and bool(n.get("rest")) == want_rest for n in r["spec"]["notes"])
 
 
 def replay(obj):
